@@ -208,10 +208,11 @@ class Association(object):
 
         def fget(inst, ref_name, alt_prop):
             other_inst = self.target_link.navigate_one(inst)
-            if other_inst is None and alt_prop:
+            value = getattr(other_inst, ref_name, None)
+            if value is None and alt_prop:
                 return alt_prop.fget(inst)
             
-            return getattr(other_inst, ref_name, None)
+            return value
 
         def fset(inst, value, name, ref_name, alt_prop):
             kind = get_metaclass(inst).kind
